@@ -1,6 +1,6 @@
 """C01 - the time limit bounds every evaluation (DESIGN 4, C01)."""
 from ..harness_api import Harness
-from ..compat import pre, cover, known, NoTracing, BoundReached
+from ..compat import pre, cover, known, NoTracing, BoundReached, StepBudget
 from ..stubs import fake_clock, SizedList
 
 ASSUMPTIONS = [
@@ -48,6 +48,163 @@ def lemma_check_limits(c: int, s: float, dt: float, T: float, p: int, q: int, M:
     return True
 
 
+# ---- Lemma B: symbolic clock, every place script code can run ---------------------------------------
+SPIN = "while(true){ n++; }"
+A28 = "a" * 28
+PLACEMENTS = {
+    # looping constructs at top level
+    "top.while": "while(true){ n++; }",
+    "top.dowhile": "do { n++; } while(true);",
+    "top.for": "for(;;){ n++; }",
+    "top.forin-restart": "while(true){ for (var k in {a:1,b:2}) { n++; } }",
+    "top.forof-restart": "while(true){ for (var v of [1,2,3]) { n++; } }",
+    "top.recursion": "function r(){ n++; return r() + 1; } r();",
+    "top.mutual": "function p(){ n++; return q(); } function q(){ return p(); } p();",
+    # function kinds
+    "function": "function f(){ %s } f();" % SPIN,
+    "function-expr": "var f = function(){ %s }; f();" % SPIN,
+    "arrow": "var f = () => { %s }; f();" % SPIN,
+    "constructor": "function F(){ %s } new F();" % SPIN,
+    "method": "var o = { m: function(){ %s } }; o.m();" % SPIN,
+    "closure": "function mk(){ var c = 0; return function(){ while(true){ c++; n++; } }; } mk()();",
+    # callbacks of built-ins
+    "cb.forEach": "[1,2,3].forEach(function(){ %s });" % SPIN,
+    "cb.map": "[1,2,3].map(function(){ %s });" % SPIN,
+    "cb.filter": "[1,2,3].filter(function(){ %s });" % SPIN,
+    "cb.some": "[1,2,3].some(function(){ %s });" % SPIN,
+    "cb.every": "[1,2,3].every(function(){ %s });" % SPIN,
+    "cb.find": "[1,2,3].find(function(){ %s });" % SPIN,
+    "cb.findIndex": "[1,2,3].findIndex(function(){ %s });" % SPIN,
+    "cb.reduce": "[1,2,3].reduce(function(a,b){ %s }, 0);" % SPIN,
+    "cb.reduceRight": "[1,2,3].reduceRight(function(a,b){ %s }, 0);" % SPIN,
+    "cb.sort": "[3,1,2].sort(function(a,b){ %s });" % SPIN,
+    "cb.loop-of-callbacks": "while(true){ [1,2,3].forEach(function(x){ n += x; }); }",
+    # accessors and conversions
+    "getter": "var o = { get x(){ %s } }; o.x;" % SPIN,
+    "setter": "var o = { set x(v){ %s } }; o.x = 1;" % SPIN,
+    "valueOf": "var o = { valueOf: function(){ %s } }; o + 1;" % SPIN,
+    "toString": "var o = { toString: function(){ %s } }; '' + o;" % SPIN,
+    # call / apply / bind
+    "call": "function f(){ %s } f.call(null);" % SPIN,
+    "apply": "function f(){ %s } f.apply(null, []);" % SPIN,
+    "bind": "function f(){ %s } f.bind(null)();" % SPIN,
+    # nested interpreters
+    "eval": "eval('while(true){ n++; }');",
+    "eval-indirect": "(0, eval)('while(true){ n++; }');",
+    "new-Function": "new Function('while(true){ n++; }')();",
+    "eval-in-loop": "while(true){ eval('n++'); }",
+    # regular expressions through every regex-consuming API
+    "regex.test": "while(true){ /(a*)*b/.test('%s'); }" % A28,
+    "regex.exec": "while(true){ /(a*)*b/.exec('%s'); }" % A28,
+    "regex.match": "while(true){ '%s'.match(/(a*)*b/); }" % A28,
+    "regex.match-g": "while(true){ '%s'.match(/(a*)*b/g); }" % A28,
+    "regex.search": "while(true){ '%s'.search(/(a*)*b/); }" % A28,
+    "regex.replace": "while(true){ '%s'.replace(/(a*)*b/, 'x'); }" % A28,
+    "regex.replaceAll": "while(true){ '%s'.replaceAll(/(a*)*b/g, 'x'); }" % A28,
+    "regex.split": "while(true){ '%s'.split(/(a*)*b/); }" % A28,
+    "regex.ctor": "while(true){ new RegExp('(a*)*b').test('%s'); }" % A28,
+    "regex.ctor-call": "while(true){ RegExp('(a*)*b').exec('%s'); }" % A28,
+    "regex.lookahead": "while(true){ /(?=(a*)*b)a/.test('%s'); }" % A28,
+    "regex.lookbehind": "while(true){ /(?<=(a*)*b)a/.test('%s'); }" % A28,
+}
+WRAPS = {
+    "bare": "var n = 0; var L = []; %s",
+    "try": "var n = 0; var L = []; try { %s } catch (e) { L.push('catch'); } finally { L.push('finally'); } L.push('after');",
+    "try-in-fn": "var n = 0; var L = []; function w(){ try { %s } catch (e) { L.push('catch'); return 1; } finally { L.push('finally'); } } "
+                 "while (true) { w(); L.push('again'); }",
+}
+K = 3   # clock readings after the start reading
+
+
+class _Counts:
+    ops = 0
+    checks = 0
+
+
+def make_placement(name, wrap, num=int, k=K):
+    src = WRAPS[wrap] % PLACEMENTS[name]
+
+    def h(T, s, d1, d2, d3, use_mem):
+        if num is float:
+            pre(T > 0 and T < 1e300 and s == s and abs(s) < 1e300)
+            pre(d1 >= 0 and d2 >= 0 and d3 >= 0 and d1 < 1e300 and d2 < 1e300 and d3 < 1e300)
+        else:
+            pre(T > 0 and d1 >= 0 and d2 >= 0 and d3 >= 0)
+        from ..jsrun import compile_js, new_context, run_compiled
+        from microjs.errors import TimeLimitError, MemoryLimitError, JSError
+        import microjs.vm as vmmod
+        readings = [s, s + d1, s + d1 + d2, s + d1 + d2 + d3][:k + 1]
+        # the reading at which the deadline is first seen to be passed
+        jstar = None
+        for j in range(1, len(readings)):
+            if readings[j] - readings[0] > T:
+                jstar = j
+                break
+        compiled = compile_js(src)
+        ctx = new_context()
+        ctx.time_limit = T
+        ctx.memory_limit = 10 ** 9 if use_mem else None
+        counts = _Counts()
+        counts.ops = counts.checks = 0
+        orig_exec, orig_check = vmmod.VM._execute_opcode, vmmod.VM._check_limits
+
+        def exec_mon(self, op, arg, frame):
+            counts.ops += 1
+            if counts.ops > counts.checks:
+                raise AssertionError("an opcode ran without a preceding limit check")
+            return orig_exec(self, op, arg, frame)
+
+        def check_mon(self):
+            counts.checks += 1
+            return orig_check(self)
+        vmmod.VM._execute_opcode, vmmod.VM._check_limits = exec_mon, check_mon
+        outcome = None
+        mark = [None]
+
+        def on_read(idx):
+            # number of handler log entries when the deadline-passing reading is handed out
+            if idx == jstar:
+                log0 = ctx._globals.get("L")
+                mark[0] = len(getattr(log0, "_elements", []))
+        try:
+            with fake_clock(readings, on_read) as clk:
+                try:
+                    run_compiled(ctx, compiled, max_steps=4000 * (k + 1))
+                    outcome = "returned"
+                except TimeLimitError:
+                    outcome = "TimeLimitError"
+                except MemoryLimitError:
+                    outcome = "MemoryLimitError"
+                except JSError as e:
+                    outcome = "JSError(%s)" % (str(e)[:80],)
+                except BoundReached:
+                    outcome = "cut"
+                except StepBudget:
+                    outcome = "still running after %d interpreter steps without the next clock poll" % (4000 * (k + 1))
+                used = clk.n
+        finally:
+            vmmod.VM._execute_opcode, vmmod.VM._check_limits = orig_exec, orig_check
+        log = ctx._globals.get("L")
+        logged = list(getattr(log, "_elements", []))
+        cover("stopped", outcome == "TimeLimitError")
+        cover("cut", outcome == "cut")
+        if jstar is None:
+            if outcome == "cut":
+                return True
+            if outcome.startswith("still running"):
+                return outcome + " (readings used %d of %d)" % (used, k + 1)
+            return "no reading exceeded T within %d readings, yet the evaluation ended with %s" % (k, outcome)
+        if outcome != "TimeLimitError":
+            return "deadline passed at reading %d, evaluation ended with %s (readings used %d)" % (jstar, outcome, used)
+        if used != jstar + 1:
+            return "TimeLimitError raised after %d readings, the deadline was passed at reading %d" % (used - 1, jstar)
+        if mark[0] is not None and len(logged) != mark[0]:
+            return "the script's handlers ran after the stop began: %r" % (logged[mark[0]:],)
+        return True
+    h.__annotations__ = {"T": num, "s": num, "d1": num, "d2": num, "d3": num, "use_mem": bool, "return": bool}
+    return h
+
+
 def harnesses():
     hs = []
     hs.append(Harness(
@@ -56,4 +213,26 @@ def harnesses():
                 "stack / frame depths: any integers >= 0; memory limit any integer > 0 or unset"],
         per_path=30, budget=120, require=("time", "mem", "none"), group="lemma",
         functions=("microjs.vm.VM._check_limits",), stubs=("symbolic clock (microjs.vm.time)",)))
+    fns = ("microjs.context.Context.eval (parse/compile untraced)", "microjs.vm.VM.run", "microjs.vm.VM._execute",
+           "microjs.vm.VM._call_callback", "microjs.vm.VM._check_limits", "microjs.regex.vm.RegexVM._execute",
+           "microjs.regex.vm.RegexVM._execute_lookahead", "microjs.regex.vm.RegexVM._try_lookbehind_at",
+           "microjs.context.Context._create_eval_function", "microjs.context.Context._create_function_constructor")
+    for name in PLACEMENTS:
+        for wrap in WRAPS:
+            if wrap == "try-in-fn" and not (name.startswith("top.") or name.startswith("regex.t") or name == "eval"):
+                continue
+            hs.append(Harness(
+                id="C01.place.%s.%s" % (name, wrap), fn=make_placement(name, wrap, int),
+                bounds=["T: any integer > 0 (clock ticks)", "start reading: any integer; %d later readings = "
+                        "cumulative sums of arbitrary non-negative integers" % K,
+                        "memory_limit: unset or 10**9 (symbolic flag)", "script: " + name + " / " + wrap],
+                per_path=60, budget=240, budget_thorough=600, require=("stopped",), group="placement " + wrap,
+                functions=fns, stubs=("symbolic clock (microjs.vm.time, microjs.context.time)",)))
+            if wrap == "try":
+                hs.append(Harness(
+                    id="C01.place-dbl.%s.%s" % (name, wrap), fn=make_placement(name, wrap, float),
+                    bounds=["T: any double in (0, 1e300)", "start reading: any finite double; %d later readings = "
+                            "cumulative sums of arbitrary non-negative doubles" % K, "script: " + name + " / " + wrap],
+                    per_path=200, budget=900, tier="thorough", require=("stopped",), group="placement double clock",
+                    functions=fns, stubs=("symbolic clock (microjs.vm.time, microjs.context.time)",)))
     return hs
